@@ -73,6 +73,8 @@ META = {
         "copy still exposes the shared dict/list objects to mutating template expressions); this holds item by item too (self.ctx[k] = copy(v) copies one level only and is reported); a by-reference fallback in the "
         "handler of a failed deepcopy is accepted as best effort. R5 has no tabled exception any more (the lazily filled "
         "_inventories cache must be reset per render too). "
+        "The dunder protocol methods of MdParserConfig (__getstate__, __repr__ ...) count as entries: they run implicitly on the "
+        "live shared object (Sphinx pickles the env after every read) and must not write it. "
         "R14 also reports the Sphinx env object itself in a template context (known finding). R15: a container found "
         "below app.config (the user's conf.py objects) is written only after it was replaced by a new object on every path. "
         "Freshness of a stored value is decided flow-sensitively for re-bound names (value = set(value)). "
@@ -298,7 +300,10 @@ class Effects:
         self._sites: list[Site] | None = None
         self._inst_why: dict[int, tuple] = {}
         self._cuts = 0  # number of times a recursion was cut by a cycle/depth guard (results computed meanwhile are partial)
-        self.parse_reach = self.reachable([corpus.func(e) for e in PARSE_ENTRIES])
+        # protocol methods of the shared configuration class run implicitly while documents are read (Sphinx pickles the env
+        # that holds the config after every read chunk / phase, logs its repr, compares it): they are entries too
+        self.implicit_entries = [m for n_, m in self.config_cls.methods.items() if n_.startswith("__") and n_.endswith("__") and n_ not in ("__init__", "__post_init__", "__new__")]
+        self.parse_reach = self.reachable([corpus.func(e) for e in PARSE_ENTRIES] + self.implicit_entries)
         self.build_reach = self.reachable([corpus.func(e) for e in BUILD_ENTRIES])
 
     # -- reachability with helper-robust special edges ------------------------------------------
@@ -1437,6 +1442,8 @@ def _judge_shared(ef: Effects, s: Site, roots: frozenset) -> tuple[str, str]:
             keyc = s.node.args[0]
         if isinstance(keyc, ast.Constant) and _on_every_parse(ef, fi, s.node, s.written + "||" + unparse(s.container)) is True:
             return "ok", f"idempotent reset: key {keyc.value!r} is removed on every parse that renders"
+    if "CONFIG" in kinds and any(fi.fq == m.fq or (fi.parent_func is not None and fi.parent_func.fq == m.fq) for m in ef.implicit_entries):
+        return "violation", f"{what}: {fi.qualname} is called implicitly on the live configuration object (pickling of the Sphinx env after every read, repr, comparison); writing the object there changes the configuration of every document read afterwards in the process"
     if "CONFIG" in kinds:
         return "violation", f"{what}: the configuration object may be the global one (Sphinx: env.myst_config, shared by all documents); an in-place write outlives this parse"
     if kinds == ["ENV"]:
@@ -3698,4 +3705,18 @@ def mutants(corpus: Corpus):
         add("c15-user-mathjax-options-dict-not-copied", "C15.R15", f, splice(mj.src, st, f"{unparse(st.targets[0].value)}.setdefault({unparse(st.targets[0].slice)}, {{}})"), "processHtmlClass")
     else:
         out.append(("c15-user-mathjax-options-dict-not-copied", "app.config.mathjax3_config['options'] = dict(...) not found"))
+    # --- round 15: protocol methods of the shared config must not write the live object --------------------
+    cm = corpus.mod("config.main")
+    if "MdParserConfig.__getstate__" in cm.functions:
+        f = cm.func("MdParserConfig.__getstate__")
+        c = find_node(f, lambda n: isinstance(n, ast.Call) and isinstance(n.func, ast.Attribute) and n.func.attr == "copy" and unparse(n.func.value) == "self.__dict__")
+        if c is not None:
+            add("c15-getstate-edits-the-live-config-dict", "C15.R1", f, splice(cm.src, c, "self.__dict__"), "__getstate__")
+        else:
+            out.append(("c15-getstate-edits-the-live-config-dict", "self.__dict__.copy() in __getstate__ not found"))
+        st = find_stmt(f, lambda n: isinstance(n, ast.Assign) and isinstance(n.targets[0], ast.Subscript) and isinstance(n.value, ast.Constant) and n.value.value is None and isinstance(n.targets[0].slice, ast.Constant))
+        if st is not None:
+            add("c15-getstate-clears-the-field-on-the-live-config", "C15.R1", f, splice(cm.src, st, _seg(f, st) + "\n" + indent_of(f, st) + f"self.{st.targets[0].slice.value} = None"), "__getstate__")
+    else:
+        out.append(("c15-getstate-edits-the-live-config-dict", "MdParserConfig.__getstate__ not found"))
     return out
